@@ -13,6 +13,9 @@ def base_cases(tier, rng, both_modes=True, tol_only=False, strict_only=False, n_
     for s in gen.exhaustive(gen.CORE_ATOMS, k_core):
         for tol in modes:
             yield {'tol': tol, 'ctx': 'default', 's': s}
+    for s in gen.exhaustive(gen.ATOMS_D, 3):
+        for tol in modes:
+            yield {'tol': tol, 'ctx': gen.CONTEXTS['D'], 's': s}
     for name in ['A', 'B', 'C', 'default']:
         atoms = gen.atoms_for(name)
         for s in gen.exhaustive(atoms, k_def if name != 'default' else k_def):
@@ -25,7 +28,7 @@ def base_cases(tier, rng, both_modes=True, tol_only=False, strict_only=False, n_
         for name in ('default', 'C'):
             yield {'tol': rng.choice(modes), 'ctx': gen.CONTEXTS[name], 's': s}
     n = n_random if n_random is not None else (6000 if tier == 'quick' else 150000)
-    names = ['A', 'B', 'C', 'default', 'default']
+    names = ['A', 'B', 'C', 'D', 'default', 'default']
     for _ in range(n):
         name = rng.choice(names)
         yield {'tol': rng.choice(modes), 'ctx': gen.CONTEXTS[name], 's': gen.soup(rng, gen.atoms_for(name), 12)}
